@@ -1,6 +1,6 @@
 """C15 - see spec/sync/Sync.tla and harness/syncutil.py (shared by C13, C14, C15).
 
-C13 "a successful sync makes the destination a superset and touches nothing else"  : Superset FilesArrive DstOnlyUntouched SrcUntouched Idempotent
+C13 "a successful sync makes the destination a superset and touches nothing else"  : Superset FilesArrive DstOnlyUntouched SrcUntouched Idempotent NothingElse
 C14 "never overwrites conflicts unless told to; failed syncs roll documents back"    : OverwriteIffStrategy ConflictLeavesFile DocOverwriteIffKeyStrategy DocRollbackExact
 C15 "options are honoured: dry-run, deep, exclude, selection, parallel"              : DryRunFrame DeepByContent ExcludeFrame SelectionFrame OrderConfluent
 This driver evaluates only the requirements of C15 (PROP = "C15" in the specification) and reports only those.
